@@ -193,6 +193,33 @@ impl Output {
         }
     }
 
+    /// Called when linking fails after we might have created (or started overwriting) the output
+    /// file. Removes the file so that a failed link doesn't leave a partial output behind. This
+    /// matches what GNU ld does.
+    pub(crate) fn discard_after_error(&self) {
+        match &self.creator {
+            FileCreator::Background {
+                sized_output_sender,
+                sized_output_recv,
+            } => {
+                if sized_output_sender.is_some() {
+                    // We never requested creation of the output file.
+                    return;
+                }
+                // Wait for the background task that creates the file, otherwise we might remove
+                // the file before it gets created. If the output was already received, then the
+                // sender has been dropped and this returns immediately.
+                drop(sized_output_recv.recv());
+            }
+            FileCreator::Regular { file_size } => {
+                if file_size.is_none() {
+                    return;
+                }
+            }
+        }
+        remove_output_after_error(&self.path);
+    }
+
     pub fn write<'data, 'layout, P: Platform>(
         &self,
         layout: &'layout Layout<'data, P>,
@@ -250,6 +277,14 @@ fn default_file_write_mode(args: &impl platform::Args, output_kind: OutputKind) 
     };
 
     FileWriteMode::UpdateInPlaceWithFallback
+}
+
+/// Removes an output file that we created or partially overwrote before encountering an error. We
+/// only remove regular files so that we don't for example try to delete /dev/null.
+pub(crate) fn remove_output_after_error(path: &Path) {
+    if std::fs::metadata(path).is_ok_and(|m| m.is_file()) {
+        let _ = std::fs::remove_file(path);
+    }
 }
 
 /// Delete the old output file. Note, this is only used when running from a single thread.
